@@ -317,6 +317,35 @@ DecodeHeader(b, ts, dict) ==
           ELSE <<tag, vr, Ord(ts, SubSeq(b, 9, 12)), 12>>
 
 ---------------------------------------------------------------------------
+(* PS3.5 6.2, DA / TM / DT: the text of a value is determined by the components *)
+(* that are present.  A value is a record [y, mo, d, h, mi, s, f, tz] with -1   *)
+(* for an absent number, f = the fraction digits (0..6 of them), tz = <<>> or   *)
+(* <<sign code (43 "+" / 45 "-"), hours, minutes>>.                             *)
+(*   DA  YYYY[MM[DD]]        TM  HH[MM[SS[.F{1,6}]]]                            *)
+(*   DT  YYYY[MM[DD[HH[MM[SS[.F{1,6}]]]]]][&ZZXX]                               *)
+RECURSIVE Pow10(_)
+Pow10(k) == IF k = 0 THEN 1 ELSE 10 * Pow10(k - 1)
+Dig(n, w) == [i \in 1..w |-> 48 + ((n \div Pow10(w - i)) % 10)]
+DAText(p) == Dig(p.y, 4) \o (IF p.mo < 0 THEN <<>> ELSE Dig(p.mo, 2) \o (IF p.d < 0 THEN <<>> ELSE Dig(p.d, 2)))
+TMText(p) == Dig(p.h, 2) \o
+             (IF p.mi < 0 THEN <<>> ELSE Dig(p.mi, 2) \o
+               (IF p.s < 0 THEN <<>> ELSE Dig(p.s, 2) \o
+                 (IF Len(p.f) = 0 THEN <<>> ELSE <<46>> \o [i \in 1..Len(p.f) |-> 48 + p.f[i]])))
+DTText(p) == DAText(p) \o (IF p.h < 0 THEN <<>> ELSE TMText(p))
+               \o (IF Len(p.tz) = 0 THEN <<>> ELSE <<p.tz[1]>> \o Dig(p.tz[2], 2) \o Dig(p.tz[3], 2))
+TypedText(vr, p) == CASE vr = "DA" -> DAText(p) [] vr = "TM" -> TMText(p) [] vr = "DT" -> DTText(p)
+
+(* PS3.5 6.1 / PS3.3 C.12.1.1.2: character repertoires selected by (0008,0005). *)
+(* Text is a sequence of code points; ISO_IR 100 (Latin-1) encodes a code point *)
+(* <= 255 as that byte, ISO_IR 192 is UTF-8.                                    *)
+Utf8(c) == IF c < 128 THEN <<c>>
+           ELSE IF c < 2048 THEN <<192 + (c \div 64), 128 + (c % 64)>>
+           ELSE <<224 + (c \div 4096), 128 + ((c \div 64) % 64), 128 + (c % 64)>>
+EncText(cs, cps) == IF cs = "ISO_IR 192" THEN Flat([i \in 1..Len(cps) |-> Utf8(cps[i])]) ELSE cps
+CsCode(cs) == (* "ISO_IR 100" / "ISO_IR 192" as characters *)
+    <<73, 83, 79, 95, 73, 82, 32, 49>> \o (IF cs = "ISO_IR 192" THEN <<57, 50>> ELSE <<48, 48>>)
+
+---------------------------------------------------------------------------
 (* The documented normalisations of a write/read round trip:                 *)
 (*  * trailing padding is not part of a text value; a value field of length   *)
 (*    zero is the empty value;                                                *)
@@ -324,7 +353,9 @@ DecodeHeader(b, ts, dict) ==
 (*    (the pad byte of a byte string cannot be told from content);            *)
 (*  * Implicit VR: the VR is the dictionary's for a known tag, UN otherwise;  *)
 (*    a value read as UN is its value field, byte by byte;                    *)
-(*  * length modes are not part of the comparison (StripLm).                  *)
+(*  * length modes are not part of the comparison (StripLm);                  *)
+(*  * an element may carry cp = its text as code points (non-default           *)
+(*    repertoire; v is then the encoded form): text reads back as code points. *)
 Bytes1(b) == [i \in 1..Len(b) |-> <<b[i]>>]
 NormVal(ts, vr, v) ==
     IF Len(ValueRaw(ts, vr, v)) = 0 THEN <<>>
@@ -334,7 +365,9 @@ RECURSIVE Norm(_, _, _)
 NormElem(e, ts, dict) ==
     CASE e.k = "P" ->
            LET rvr == IF IsExplicit(ts) THEN e.vr ELSE DictVR(dict, e.tag) IN
-           IF rvr = e.vr THEN [k |-> "P", tag |-> e.tag, vr |-> e.vr, v |-> NormVal(ts, e.vr, e.v)]
+           IF rvr = e.vr
+           THEN [k |-> "P", tag |-> e.tag, vr |-> e.vr,
+                 v |-> IF "cp" \in DOMAIN e /\ Len(ValueRaw(ts, e.vr, e.v)) > 0 THEN e.cp ELSE NormVal(ts, e.vr, e.v)]
            ELSE [k |-> "P", tag |-> e.tag, vr |-> rvr, v |-> Bytes1(ValueBytes(ts, e.vr, e.v))]
       [] e.k = "S" -> [k |-> "S", tag |-> e.tag,
                        items |-> [i \in 1..Len(e.items) |-> Norm(e.items[i].ds, ts, dict)]]
